@@ -325,6 +325,13 @@ def judge(T):
     if kind in ("measure", "povm"):
         V.extend(_judge_measurement(T))
         if any(v["sig"]["clause"] in ("keys", "retire", "nd") for v in V):
+            # the partition rules are structural and stay meaningful even when the wrong set was measured
+            S_ = action_targets(a)
+            if kind == "measure":
+                spec_sets = T.exp.get("measured_sets") or [S_]
+                S_ = sorted(set(S_) | set(x for st in spec_sets for x in st if x in o0.sub))
+            for cl, txt in c20_problems(a, o0, o1, S_):
+                V.append(_viol("C20", cl, T, cl, txt))
             return V
     if live_impl != live_ref:
         prop = "C05" if kind in ("measure",) else ("C09" if kind == "povm" else _owner_map(a)[0])
